@@ -1663,4 +1663,54 @@ Proof.
   now rewrite inject_all_tolerant_no_fms.
 Qed.
 
+(* ====================================================================== *)
+(* Attributes that already have a value (hasattr is true when _setup_vars     *)
+(* looks: class-level value, set in __init__, or a descriptor / marker the    *)
+(* framework has bound -- magicbot.tunable, will_reset_to: PBound)            *)
+(* ====================================================================== *)
+
+(* get_injection_requests sees only the public unset annotations *)
+Lemma get_requests_requested has hints :
+  get_requests hints (Some has) = get_requests (requested has hints) (Some has).
+Proof.
+  induction hints as [|[n h] hints IH]; [reflexivity|].
+  unfold requested in *. simpl.
+  destruct (is_private n) eqn:EP; simpl; [exact IH|].
+  destruct (has n) eqn:EH; simpl; [exact IH|].
+  rewrite EP, EH. destruct (hint_type h); [|reflexivity]. now rewrite IH.
+Qed.
+
+Lemma get_requests_has_ext has has' hints :
+  (forall n, has n = has' n) -> get_requests hints (Some has) = get_requests hints (Some has').
+Proof.
+  intros E. induction hints as [|[n h] hints IH]; simpl; [reflexivity|].
+  rewrite <- E, IH. reflexivity.
+Qed.
+
+(* What is annotated on an attribute that already has a value -- which type, a
+   non-class, or no annotation at all -- changes nothing: two targets of the
+   same name with the same hasattr and the same public unset annotations are
+   injected alike (same update or same error), whatever else they annotate. *)
+Theorem set_attr_annotation_irrelevant tg tg' inj :
+  t_ref tg = t_ref tg' -> (forall n, t_has tg n = t_has tg' n) ->
+  requested (t_has tg) (t_hints tg) = requested (t_has tg') (t_hints tg') ->
+  setup_vars subclass tg inj = setup_vars subclass tg' inj.
+Proof.
+  intros ER EH EQ. unfold setup_vars.
+  rewrite (get_requests_requested (t_has tg) (t_hints tg)), EQ.
+  rewrite (get_requests_has_ext (t_has tg) (t_has tg') _ EH).
+  rewrite <- (get_requests_requested (t_has tg') (t_hints tg')), ER. reflexivity.
+Qed.
+
+(* ... and nothing is ever written under its name *)
+Theorem set_attr_never_written r s tg n upd :
+  startup subclass r = Ok s -> NoDup (map t_ref (targets r)) ->
+  In tg (targets r) -> t_has tg n = true ->
+  In (EvInject (t_ref tg) upd) (trace_of r s) -> ~ In n (map fst upd).
+Proof.
+  intros HS ND Htg HH HI Hn. apply in_map_iff in Hn. destruct Hn as ([n' o] & E & Hn). simpl in E. subst n'.
+  destruct (update_names _ _ _ _ _ _ HS HI Hn) as (_ & tg' & Htg' & Et & HH' & _).
+  assert (tg' = tg) by (eapply NoDup_map_inj; eauto). subst. congruence.
+Qed.
+
 End WithSubclass.
